@@ -125,6 +125,16 @@ class World:
             raise Mismatch("purity", "%s: node at %s/%s differs from the stateless recomputation" % (what, w, path_str(path)))
         # how a node prints itself is the library's business; that it prints the same as a freshly derived node
         # at the same path is purity
+        # whatever a node prints as its path, the library's own parser reads it back as the path that was requested
+        # (relative to the wallet's root; deeper than five levels is not parseable by the pinned code, see D-C17b)
+        if len(path) <= 5:
+            from btc_hd_wallet.wallet_utils import Bip32Path
+            try:
+                back = Bip32Path.parse(str(got)).to_list()
+            except Exception:
+                back = None
+            if back is not None and list(back) != list(path):
+                raise Mismatch("purity", "%s: the node at %s/%s prints itself as %r" % (what, w, path_str(path), str(got)))
         if w == "full" and str(got) != str(ref):
             raise Mismatch("purity", "%s: str(node) = %r for path %s (a fresh derivation prints %r)" % (what, str(got), path_str(path), str(ref)))
 
